@@ -59,6 +59,16 @@ theorem rect_ordered (m : Matrix) (r : Rect) :
   simp only [apply_matrix_rect, apply_matrix_pt]
   constructor <;> grind
 
+/-- The scales pdfminer uses (constants / `apply_matrix_norm` of the FontMatrix) are the ones of 9.6.5. -/
+theorem fontScale_eq (f : Font) : fontHScale f = f.hscale ∧ fontVScale f = f.vscale := by
+  unfold fontHScale fontVScale Font.hscale Font.vscale
+  cases f.fm with
+  | none => simp [font_hscale, font_vscale]
+  | some m =>
+    obtain ⟨a, b, c, d, e, f'⟩ := m
+    simp only [type3_hscale, type3_vscale, apply_matrix_norm]
+    constructor <;> grind
+
 /-- The glyph `render_char`/`LTChar` build at pen position `(x, y)` of the line is the glyph the
 text model paints with `Tm = translate(x, y) × Tlm` — horizontal and vertical writing, simple,
 Type 3 and CID fonts. -/
@@ -73,7 +83,7 @@ theorem ltchar_eq_observe (f : Font) (M ctm : Matrix) (gs : GS) (x y : Rat) (c :
   by_cases hv : f.vertical = true
   · simp only [hv, if_true]
     have hadv : ltchar_adv_v (charWidth f c) gs.Tfs = f.width c * f.hscale * gs.Tfs := by
-      simp only [ltchar_adv_v, charWidth, char_width_scaled]
+      simp only [ltchar_adv_v, charWidth, char_width_scaled, (fontScale_eq f).1]
     have hvy : ltchar_vy (f.disp c).2 gs.Tfs = (1000 - (f.disp c).2) / 1000 * gs.Tfs := by
       simp only [ltchar_vy]; grind
     simp only [hadv, hvy, ltchar_bbox_v]
@@ -93,12 +103,12 @@ theorem ltchar_eq_observe (f : Font) (M ctm : Matrix) (gs : GS) (x y : Rat) (c :
   · have hv' : f.vertical = false := by simpa using hv
     simp only [hv', Bool.false_eq_true, if_false]
     have hadv : ltchar_adv (charWidth f c) gs.Tfs (rs_scaling gs.Th) = f.width c * f.hscale * gs.Tfs * (gs.Th / 100) := by
-      simp only [ltchar_adv, charWidth, char_width_scaled, rs_scaling]; grind
-    have hbox : ltchar_bbox_h (ltchar_descent (font_get_descent f.descent f.vscale) gs.Tfs) gs.Trise
+      simp only [ltchar_adv, charWidth, char_width_scaled, rs_scaling, (fontScale_eq f).1]; grind
+    have hbox : ltchar_bbox_h (ltchar_descent (font_get_descent f.descent (fontVScale f)) gs.Tfs) gs.Trise
           (f.width c * f.hscale * gs.Tfs * (gs.Th / 100)) gs.Tfs
         = (0, f.descent * f.vscale * gs.Tfs + gs.Trise, f.width c * f.hscale * gs.Tfs * (gs.Th / 100),
            f.descent * f.vscale * gs.Tfs + gs.Trise + gs.Tfs) := by
-      simp only [ltchar_bbox_h, ltchar_descent, font_get_descent]
+      simp only [ltchar_bbox_h, ltchar_descent, font_get_descent, (fontScale_eq f).2]
     simp only [hadv, hbox]
     have ho := rect_ordered T (0, f.descent * f.vscale * gs.Tfs + gs.Trise, f.width c * f.hscale * gs.Tfs * (gs.Th / 100),
            f.descent * f.vscale * gs.Tfs + gs.Trise + gs.Tfs)
@@ -125,7 +135,7 @@ theorem pen_advance (f : Font) (gs : GS) (x : Rat) (c : Nat) (hv : f.vertical = 
       else x + ltchar_adv (charWidth f c) gs.Tfs (rs_scaling gs.Th) + rs_charspace gs.Tc (rs_scaling gs.Th))
     = x + (displacement f gs c).1 ∧ (displacement f gs c).2 = 0 := by
   simp only [displacement, hv, Bool.false_eq_true, if_false, and_true]
-  simp only [wsOf, ltchar_adv, charWidth, char_width_scaled, rs_scaling, rs_charspace, rs_wordspace]
+  simp only [wsOf, ltchar_adv, charWidth, char_width_scaled, rs_scaling, rs_charspace, rs_wordspace, (fontScale_eq f).1]
   by_cases hm : f.multibyte = true
   · simp only [hm, if_true, ne_eq, not_true_eq_false, and_false, if_false, Bool.true_eq_false]; grind
   · have hm' : f.multibyte = false := by simpa using hm
@@ -143,7 +153,7 @@ theorem pen_advance_v (f : Font) (gs : GS) (y : Rat) (c : Nat) (hv : f.vertical 
       else y + ltchar_adv_v (charWidth f c) gs.Tfs + rs_charspace_v gs.Tc (rs_scaling gs.Th))
     = y + (displacement f gs c).2 ∧ (displacement f gs c).1 = 0 := by
   simp only [displacement, hv, if_true, and_true]
-  simp only [wsOf, ltchar_adv_v, charWidth, char_width_scaled, rs_charspace_v, hm, if_true, ne_eq,
+  simp only [wsOf, ltchar_adv_v, charWidth, char_width_scaled, rs_charspace_v, (fontScale_eq f).1, hm, if_true, ne_eq,
     not_true_eq_false, and_false, if_false, Bool.true_eq_false]
   grind
 
